@@ -1,10 +1,10 @@
 package main
 
 var checks = map[string]check{
-	"C02": {ID: "C02", Level: "fault_enumeration", Units: []unit{u("hcore", "byzrbc", 8, 16)},
-		Floors: map[string]int64{"byzrbc.byzantine_deliveries": 1000, "byzrbc.handovers": 1000}},
-	"C03": {ID: "C03", Level: "fault_enumeration", Units: []unit{u("hcore", "byzrbc", 8, 16)},
-		Floors: map[string]int64{"byzrbc.byzantine_deliveries": 1000, "byzrbc.handovers": 1000}},
-	"C04": {ID: "C04", Level: "exploration", Units: []unit{u("hcore", "c04rbc", 8, 16)},
-		Floors: map[string]int64{"c04rbc.handovers": 1000, "c04rbc.ack_before_payload": 100}},
+	"C02": {ID: "C02", Level: "fault_enumeration", Units: []unit{u("hcore", "byzrbc", 6, 16), u("hcore", "byzorch", 8, 16)},
+		Floors: map[string]int64{"byzrbc.byzantine_deliveries": 1000, "byzrbc.handovers": 1000, "byzorch.byzantine_deliveries": 500, "byzorch.handovers": 300}},
+	"C03": {ID: "C03", Level: "fault_enumeration", Units: []unit{u("hcore", "byzrbc", 6, 16), u("hcore", "byzorch", 8, 16)},
+		Floors: map[string]int64{"byzrbc.byzantine_deliveries": 1000, "byzrbc.handovers": 1000, "byzorch.byzantine_deliveries": 500, "byzorch.handovers": 300}},
+	"C04": {ID: "C04", Level: "exploration", Units: []unit{u("hcore", "c04rbc", 6, 16), u("hcore", "c04orch", 8, 16)},
+		Floors: map[string]int64{"c04rbc.handovers": 1000, "c04rbc.ack_before_payload": 100, "c04orch.handovers": 500}},
 }
